@@ -276,8 +276,10 @@ r_buf_rpos_check_fast(r_buf_p r_buf, r_buf_rpos_p rpos) {
 			/* Reader out of buf range in previous round - normal. */
 			return (1); /* OK: fixed. */
 		}
-		if (rpos->iov_index > r_buf->iov_index)
-			return (1); /* OK: in range. */
+		if (rpos->iov_index > r_buf->iov_index &&
+		    r_buf->iov[rpos->iov_index].iov_base >=
+		    (r_buf->buf + r_buf->wpos))
+			return (1); /* OK: in range and not overwritten. */
 		/* Out of range: slow reader. */
 		return (0);
 	}
@@ -315,11 +317,17 @@ r_buf_rpos_check(r_buf_p r_buf, r_buf_rpos_p rpos, size_t *drop_size_ret) {
 			rpos->round_num ++;
 			return (1); /* OK: fixed. */
 		}
-		if (rpos->iov_index > r_buf->iov_index)
-			return (1); /* OK: in range. */
-		/* Out of range: slow reader. */
-		drop_size = (r_buf->size + r_buf_iovec_calc_size(&r_buf->iov[rpos->iov_index],
-		    (1 + r_buf->iov_index - rpos->iov_index)));
+		if (rpos->iov_index > r_buf->iov_index &&
+		    r_buf->iov[rpos->iov_index].iov_base >=
+		    (r_buf->buf + r_buf->wpos))
+			return (1); /* OK: in range and not overwritten. */
+		/* Out of range: slow reader, its data is overwritten:
+		 * move to write pos.  Dropped: at most the tail of the
+		 * previous round and the head of the current one. */
+		drop_size = (2 * r_buf->size);
+		rpos->iov_off = 0;
+		rpos->iov_index = (r_buf->iov_index + 1);
+		rpos->round_num = r_buf->round_num;
 		if (NULL != drop_size_ret) {
 			(*drop_size_ret) = drop_size;
 		}
